@@ -11,7 +11,6 @@ import (
 	"strings"
 
 	"github.com/moorara/algo/generic"
-	"github.com/moorara/algo/symboltable"
 
 	"verifharness/hx"
 )
@@ -40,8 +39,6 @@ const Rule = "cases = (tree kind bst|avl|rb, constructor arguments of EACH of th
 	"distinct = distinct (header, op list)"
 
 type KV struct{ K, V int }
-
-type Table = symboltable.OrderedSymbolTable[int, int]
 
 func CmpAsc(a, b int) int {
 	switch {
@@ -109,15 +106,7 @@ var EqNames = []string{"id", "par", "any"}
 func NewTable(comp string, cmp func(int, int) int) Table { return NewTableEq(comp, cmp, eqInt) }
 
 func NewTableEq(comp string, cmp func(int, int) int, eq func(int, int) bool) Table {
-	switch comp {
-	case "bst":
-		return symboltable.NewBST[int, int](cmp, eq)
-	case "avl":
-		return symboltable.NewAVL[int, int](cmp, eq)
-	case "rb":
-		return symboltable.NewRedBlack[int, int](cmp, eq)
-	}
-	return nil
+	return NewTableOf(comp, "int", "int", "", "", cmp, eq)
 }
 
 // ---------------------------------------------------------------- oracle: a Go map and its pairs sorted by the comparator
@@ -177,7 +166,7 @@ func (o *Oracle) Put(k, v int) {
 	switch {
 	case had:
 		o.kvs[i].V = v
-	case len(o.kvs)-i > 1024:
+	case len(o.kvs)-i > 1024 && len(o.kvs) > 8192:
 		o.dirty = true
 	default:
 		o.kvs = append(o.kvs, KV{})
@@ -377,7 +366,7 @@ func Collect(t Table, order generic.TraverseOrder, limit int) []KV {
 	return acc
 }
 
-func All(t generic.Collection2[int, int]) []KV {
+func All(t Table) []KV {
 	var acc []KV
 	for k, v := range t.All() {
 		acc = append(acc, KV{k, v})
@@ -407,20 +396,26 @@ func (m *Machine) Cmp() func(int, int) int { return m.OA.cmp }
 
 func NewMachine(header string) *Machine {
 	m := &Machine{Comp: hx.HeaderGet(header, "comp"), Dump: hx.HeaderGet(header, "dump") == "1"}
-	param := func(key string, cmp func(int, int) int, eq func(int, int) bool, sfx string) (func(int, int) int, func(int, int) bool) {
-		if c, ok := Cmps[hx.HeaderGet(header, "cmp"+sfx)]; ok {
-			cmp = c
+	kt, vt := hx.HeaderGet(header, "kt"), hx.HeaderGet(header, "vt")
+	type par struct{ cmp, eq string }
+	get := func(sfx string, dflt par) par {
+		p := dflt
+		if _, ok := Cmps[hx.HeaderGet(header, "cmp"+sfx)]; ok {
+			p.cmp = hx.HeaderGet(header, "cmp"+sfx)
 		}
-		if e, ok := Eqs[hx.HeaderGet(header, "eq"+sfx)]; ok {
-			eq = e
+		if _, ok := Eqs[hx.HeaderGet(header, "eq"+sfx)]; ok {
+			p.eq = hx.HeaderGet(header, "eq"+sfx)
 		}
-		return cmp, eq
+		return p
 	}
-	ca, ea := param("", CmpAsc, eqInt, "")
-	cb, eb := param("", ca, ea, "2")
-	cc, ec := param("", ca, ea, "3")
-	m.A, m.B, m.C = NewTableEq(m.Comp, ca, ea), NewTableEq(m.Comp, cb, eb), NewTableEq(m.Comp, cc, ec)
-	m.OA, m.OB, m.OC = NewOracle(ca, ea), NewOracle(cb, eb), NewOracle(cc, ec)
+	pa := get("", par{"asc", "id"})
+	pb, pc := get("2", pa), get("3", pa)
+	mk := func(p par) (Table, *Oracle) {
+		return NewTableOf(m.Comp, kt, vt, p.cmp, p.eq, Cmps[p.cmp], Eqs[p.eq]), NewOracle(Cmps[p.cmp], Eqs[p.eq])
+	}
+	m.A, m.OA = mk(pa)
+	m.B, m.OB = mk(pb)
+	m.C, m.OC = mk(pc)
 	return m
 }
 
@@ -461,6 +456,9 @@ func ExecWith(c hx.Case, hook Hook, shapeTags bool) hx.Result {
 	if e := hdr("eq", "id"); e != "id" || hdr("eq2", e) != e {
 		tags["eqVal-not-=="] = true
 	}
+	if kt, vt := hdr("kt", "int"), hdr("vt", "int"); kt != "int" || vt != "int" {
+		tags["types="+kt+"/"+vt] = true
+	}
 	atoi := func(s string) int { v, _ := strconv.Atoi(s); return v }
 
 	for i, op := range c.Ops {
@@ -482,14 +480,14 @@ func ExecWith(c hx.Case, hook Hook, shapeTags bool) hx.Result {
 				}
 				s := ""
 				for _, t := range ts {
-					s += " | " + symboltable.VerifDump[int, int](t)
+					s += " | " + t.Dump()
 				}
 				return s
 			}
 			var before *Shape
 			small := shapeTags && m.A.Size() <= 64
 			if small && (f[0] == "put" || f[0] == "delete") {
-				before, _ = ParseDump(m.Comp, symboltable.VerifDump[int, int](m.A))
+				before, _ = ParseDump(m.Comp, m.A.Dump())
 			}
 			switch f[0] {
 			case "put":
@@ -501,7 +499,7 @@ func ExecWith(c hx.Case, hook Hook, shapeTags bool) hx.Result {
 				m.OA.Put(k, v)
 				out = "ok" + suffix(m.A)
 				if small {
-					after, _ := ParseDump(m.Comp, symboltable.VerifDump[int, int](m.A))
+					after, _ := ParseDump(m.Comp, m.A.Dump())
 					if after.Keys() != naivePut(before, k, m.Cmp()).Keys() {
 						tags["rotation-on-put"] = true
 					}
@@ -527,7 +525,7 @@ func ExecWith(c hx.Case, hook Hook, shapeTags bool) hx.Result {
 					if n := before.Find(k, m.Cmp()); n != nil && n.L != nil && n.R != nil {
 						tags["two-child-delete"] = true
 					}
-					after, _ := ParseDump(m.Comp, symboltable.VerifDump[int, int](m.A))
+					after, _ := ParseDump(m.Comp, m.A.Dump())
 					if after.Keys() != naiveDelete(before, k, m.Cmp()).Keys() {
 						tags["restructure-on-delete"] = true
 					}
@@ -670,6 +668,17 @@ func ExecWith(c hx.Case, hook Hook, shapeTags bool) hx.Result {
 				if !sameKVs(got, m.OA.List()) {
 					bad("= %v, want %v", got, m.OA.List())
 				}
+			case "allcount":
+				// the whole listing, checked pair by pair against the sorted map; only its length is printed
+				got := All(m.A)
+				out = "ok " + strconv.Itoa(len(got))
+				if w := m.OA.List(); !sameKVs(got, w) {
+					if len(w) > 40 {
+						bad("lists %d pairs, not the %d pairs of the sorted map in order", len(got), len(w))
+					} else {
+						bad("= %v, want %v", got, w)
+					}
+				}
 			case "alluntil":
 				limit := atoi(f[1])
 				var got []KV
@@ -747,17 +756,17 @@ func ExecWith(c hx.Case, hook Hook, shapeTags bool) hx.Result {
 				}
 			case "equalother":
 				// a table of another implementation type holding exactly the same pairs: Equal answers false
-				other := NewTableEq(otherKind(m.Comp), m.OA.cmp, m.OA.eq)
+				other := NewTableOf(otherKind(m.Comp), hdr("kt", "int"), hdr("vt", "int"), "", "", m.OA.cmp, m.OA.eq)
 				for _, e := range m.OA.List() {
 					other.Put(e.K, e.V)
 				}
-				e := m.A.Equal(other)
+				e := m.A.EqualT(other)
 				out = "ok " + strconv.FormatBool(e)
 				if e {
 					bad("= true for a table of type %s", otherKind(m.Comp))
 				}
 				// nor for an unordered table
-				if ht := symboltable.NewChainHashTable[int, int](func(k int) uint64 { return uint64(k) }, eqInt, eqInt, symboltable.HashOpts{}); m.A.Equal(ht) {
+				if m.A.EqualForeign() {
 					bad("= true for a hash table")
 				}
 			case "traverse":
@@ -805,7 +814,7 @@ func ExecWith(c hx.Case, hook Hook, shapeTags bool) hx.Result {
 				if f[0] == "equalself" {
 					arg, oarg = m.A, m.OA
 				}
-				e := m.A.Equal(arg)
+				e := m.A.EqualT(arg)
 				out = "ok " + strconv.FormatBool(e)
 				w := m.OA.EqualTo(oarg)
 				if e != w {
@@ -858,19 +867,19 @@ func ExecWith(c hx.Case, hook Hook, shapeTags bool) hx.Result {
 						bad("found nothing, %v match", yes)
 					}
 				case "selectmatch":
-					nt := m.A.SelectMatch(p)
+					nt := m.A.SelectT(p)
 					got := All(nt)
 					// the result is a table of the receiver's kind with the receiver's comparator and value equality
-					m.B = nt.(Table)
+					m.B = nt
 					m.OB = NewOracleOf(yes, m.OA.cmp, m.OA.eq)
 					out = "ok " + showKVs(got) + suffix(m.B)
 					if !sameKVs(got, yes) {
 						bad("= %v, want %v", got, yes)
 					}
 				case "partitionmatch":
-					mt, ut := m.A.PartitionMatch(p)
+					mt, ut := m.A.PartitionT(p)
 					gm, gu := All(mt), All(ut)
-					m.B, m.C = mt.(Table), ut.(Table)
+					m.B, m.C = mt, ut
 					m.OB, m.OC = NewOracleOf(yes, m.OA.cmp, m.OA.eq), NewOracleOf(no, m.OA.cmp, m.OA.eq)
 					out = "ok " + showKVs(gm) + " " + showKVs(gu) + suffix(m.B, m.C)
 					if !sameKVs(gm, yes) || !sameKVs(gu, no) {
@@ -878,7 +887,7 @@ func ExecWith(c hx.Case, hook Hook, shapeTags bool) hx.Result {
 					}
 				}
 			case "dump":
-				out = "ok " + symboltable.VerifDump[int, int](m.A)
+				out = "ok " + m.A.Dump()
 			}
 		})
 		if kind != "" {
@@ -1372,7 +1381,13 @@ func sweepPoints(n int) []int {
 // comparator) and Equal is asked both ways round; then growth past n and shrinking below it with all kinds of delete
 // and the battery again. `height` is asked after the load and after every mutation (c15 checks the shape there).
 func SweepOps(r *hx.Rand, family string, n int, second bool) []string {
-	key := func(i int) int { return 3*i - n }
+	return SweepOpsStride(r, family, n, second, 1)
+}
+
+// SweepOpsStride: the same with the keys (3*i-n)*stride: neighbours are `stride` apart (the absent arguments k+-1 stay
+// next to their key), so that with a large stride a subtracting comparator returns huge values at threshold sizes too.
+func SweepOpsStride(r *hx.Rand, family string, n int, second bool, stride int) []string {
+	key := func(i int) int { return (3*i - n) * stride }
 	var ops []string
 	for _, i := range InsertionOrder(r, family, n) {
 		ops = append(ops, fmt.Sprintf("put %d %d", key(i), i%10))
@@ -1463,14 +1478,35 @@ var ExtremeKeys = []int{math.MinInt, math.MinInt + 1, math.MinInt + 2, -1 << 32,
 
 // ExtremeOps: a history of GenOps over u of the extreme keys (two more serve as the absent arguments on either side);
 // every tenth value is MaxInt or MinInt. Only for comparators of WideCmpNames and predicates that do not add.
-func ExtremeOps(r *hx.Rand, n, u int) []string {
-	perm := InsertionOrder(r, "random", len(ExtremeKeys))
+func ExtremeOps(r *hx.Rand, n, u int) []string { return PoolOps(r, n, u, ExtremeKeys, true) }
+
+// FarKeys59: keys whose differences reach 2^32 … 2^60 although every key is within ±2^59: under a comparator that
+// subtracts (a-b, 7*(a-b), b-a, 3*(b-a)) nothing overflows, so the comparator is still a lawful total order there, but
+// its results are huge (a product of two of them does overflow). FarKeys61 goes up to ±2^61 (differences up to 2^62),
+// for a-b and b-a only.
+var FarKeys59 = []int{0, 1, -1, 2, 1 << 31, -(1 << 31), 1<<31 + 1, 1<<32 - 1, -(1<<32 - 1), 1 << 32, -(1 << 32), 3000000000, -3000000000,
+	3037000500, -3037000499, 1<<33 + 5, 1<<40 + 7, -(1<<40 + 7), 1700000000000000000 >> 2, 1 << 50, -(1 << 50), 1<<55 - 3, 1<<58 + 11, -(1<<58 + 11),
+	1<<59 - 1, -(1<<59 - 1), 1 << 59, -(1 << 59)}
+var FarKeys61 = append(append([]int{}, FarKeys59...), 1<<60+1, -(1<<60 + 1), 1700000000000000000, 1700000003000000000, 1700000003100000000,
+	-1700000000000000000, 1<<61-1, -(1<<61 - 1), 1<<61, -(1 << 61))
+
+// FarCmpNames59 / FarCmpNames61: the comparators that are lawful on those pools.
+var FarCmpNames59 = []string{"diff", "diff7", "rdiff", "rdiff3", "diff", "rdiff", "abssign", "asc"}
+var FarCmpNames61 = []string{"diff", "rdiff", "diff", "rdiff", "abssign", "evenodd"}
+
+// PoolOps: a history of GenOps over u keys of the pool (two more serve as the absent arguments on either side).
+// With extremeVals every tenth value is MaxInt or MinInt and predicates that add are replaced.
+func PoolOps(r *hx.Rand, n, u int, pool []int, extremeVals bool) []string {
+	perm := InsertionOrder(r, "random", len(pool))
 	univ := make([]int, u+2)
 	for i := range univ {
-		univ[i] = ExtremeKeys[perm[i]]
+		univ[i] = pool[perm[i]]
 	}
 	mapKey := func(s string) string { v, _ := strconv.Atoi(s); return strconv.Itoa(univ[v+1]) }
 	mapVal := func(s string) string {
+		if !extremeVals {
+			return s
+		}
 		switch v, _ := strconv.Atoi(s); v % 10 {
 		case 9:
 			return strconv.Itoa(math.MaxInt)
@@ -1490,14 +1526,14 @@ func ExtremeOps(r *hx.Rand, n, u int) []string {
 		case "range", "rangekeep", "rangesize":
 			f[1], f[2] = mapKey(f[1]), mapKey(f[2])
 		case "select":
-			if r.Chance(1, 6) {
+			if extremeVals && r.Chance(1, 6) {
 				f[1] = strconv.Itoa(hx.Pick(r, []int{math.MaxInt, math.MinInt, 1 << 32, -1 << 32, 1 << 31, -1}))
 			}
 		case "anymatch", "allmatch", "firstmatch", "selectmatch", "partitionmatch":
 			switch f[1] {
 			case "klt":
 				f[2] = mapKey(f[2])
-			case "sumlt": // k+v would overflow
+			case "sumlt": // k+v would overflow / the bound is an index, not a key
 				f = []string{f[0], "kmod", "2", "0"}
 			}
 		}
@@ -1548,6 +1584,144 @@ func Params(r *hx.Rand, names []string) string {
 	return h
 }
 
+// TypeParams draws the instantiation of K and V (header words kt/vt): one case in five is not int/int.
+func TypeParams(r *hx.Rand) string {
+	if !r.Chance(1, 5) {
+		return ""
+	}
+	kt, vt := hx.Pick(r, KeyTypes), hx.Pick(r, ValTypes)
+	if kt == "int" && vt == "int" {
+		kt = "str"
+	}
+	return " kt=" + kt + " vt=" + vt
+}
+
+// SmallSizeOps: a table of exactly n keys (every n from 0 to 200 is run), a short battery at its ends and middle, one
+// delete of each kind and the battery again; `height` after the load and after every delete.
+func SmallSizeOps(r *hx.Rand, family string, n int) []string {
+	key := func(i int) int { return 2*i - n }
+	var ops []string
+	for _, i := range InsertionOrder(r, family, n) {
+		ops = append(ops, fmt.Sprintf("put %d %d", key(i), i%10))
+	}
+	battery := func() {
+		ops = append(ops, "size", "height", "min", "max", fmt.Sprintf("select %d", n-1), fmt.Sprintf("select %d", n), fmt.Sprintf("select %d", n/2),
+			fmt.Sprintf("rank %d", key(n)), fmt.Sprintf("rank %d", key(n/2)+1), fmt.Sprintf("floor %d", key(n/2)+1), fmt.Sprintf("ceiling %d", key(n/2)-1),
+			fmt.Sprintf("rangesize %d %d", key(0), key(n)), fmt.Sprintf("%s %d %d", hx.Pick(r, []string{"range", "rangekeep"}), key(0)-1, key(n)),
+			fmt.Sprintf("range %d %d", key(n/3), key(2*n/3)), "allcount", hx.Pick(r, []string{"traverse vlr 0", "traverse lrv 0", "traverse rvl 0", "alltwice", "allpull 3", "equalself"}))
+	}
+	battery()
+	ops = append(ops, "deletemin", "height", "deletemax", "height", fmt.Sprintf("delete %d", key(n/2)), "height", fmt.Sprintf("delete %d", key(r.Intn(n+1))), "height",
+		fmt.Sprintf("put %d 3", key(n)), "height")
+	battery()
+	return ops
+}
+
+// RandLoadOps: n keys inserted in random order, then churn: random-order deletes of about half of them, re-insertions,
+// DeleteMin/DeleteMax runs — the irregular shapes that bulk loads in a regular order never produce. `check` is asked
+// every `every` mutations and a full look (Height, All, the traversals) at the end of every phase; full listings are
+// what the Lean Model is slow at, so the cases that run on the Model keep `every` large and the dense ones are
+// oracle-only.
+func RandLoadOps(r *hx.Rand, n, every int, check []string, full []string) []string {
+	var ops []string
+	mut := 0
+	tick := func() {
+		mut++
+		if mut%every == 0 {
+			ops = append(ops, check...)
+		}
+	}
+	keys := InsertionOrder(r, "random", n)
+	for _, k := range keys {
+		ops = append(ops, fmt.Sprintf("put %d %d", 2*k-n, k%10))
+		tick()
+	}
+	ops = append(ops, full...)
+	for round := 0; round < 2; round++ {
+		for _, k := range InsertionOrder(r, "random", n)[:n/2] {
+			switch x := r.Intn(20); {
+			case x == 0:
+				ops = append(ops, "deletemin")
+			case x == 1:
+				ops = append(ops, "deletemax")
+			case x == 2:
+				ops = append(ops, fmt.Sprintf("delete %d", 2*k-n+1)) // absent
+			default:
+				ops = append(ops, fmt.Sprintf("delete %d", 2*k-n))
+			}
+			tick()
+		}
+		ops = append(ops, full...)
+		if round == 0 {
+			for _, k := range InsertionOrder(r, "random", n)[:n/2] {
+				ops = append(ops, fmt.Sprintf("put %d %d", 2*k-n, 9))
+				tick()
+			}
+			ops = append(ops, full...)
+		}
+	}
+	return ops
+}
+
+// RandLoadSizes: between the thresholds and irregular on purpose.
+var RandLoadSizes = []int{300, 800, 1500, 2500, 5000}
+
+// RandLoadOpts: how densely the oracle-only random loads are checked (c01 looks at the listing, c15 at the shape).
+type RandLoadOpts struct {
+	N           int // keys of an oracle-only load
+	AllEvery    int // `allcount` every so many mutations (0 = only at the end of a phase)
+	HeightEvery int // `height` every so many mutations (0 = only at the end of a phase)
+	RB, Other   int // oracle-only cases for the Red-Black tree / for each of the other two
+}
+
+// RandLoadCases: the random-order loads of one tree kind for this run (shared with c15). On the Model: every size once
+// (thorough: three times) with sparse checks and few full listings (the Model's listing is quadratic); oracle-only
+// (hx.Case.NoModel): loads of o.N keys with churn, checked as densely as o says; three times as many when the run is
+// Huge (thorough, witness search, changed code).
+func RandLoadCases(run *hx.Run, r *hx.Rand, comp string, o RandLoadOpts, each func(c hx.Case)) {
+	reps := 1
+	if run.Thorough() {
+		reps = 3
+	}
+	for _, n := range RandLoadSizes {
+		for k := 0; k < reps; k++ {
+			full := []string{"size", "height", "min", "max", fmt.Sprintf("select %d", n/2), fmt.Sprintf("rank %d", n/3), "dump"}
+			if n <= 1500 {
+				full = append(full, "allcount", "all", "traverse vlr 0", "traverse lvr 0", "traverse descending 0", "traverse lrv 0", "alltwice")
+			}
+			ops := RandLoadOps(r, n, max(n/6, 40), []string{"height"}, full)
+			if n > 1500 {
+				ops = append(ops, "allcount", "traverse vlr 0", "traverse lvr 0")
+			}
+			each(hx.Case{Header: fmt.Sprintf("comp=%s cmp=%s%s family=randload n=%d", comp, hx.Pick(r, CmpNames), TypeParams(r), n), Ops: ops})
+		}
+	}
+	dense := o.Other
+	if comp == "rb" {
+		dense = o.RB
+	}
+	if run.Huge() {
+		dense *= 3
+	}
+	for k := 0; k < dense; k++ {
+		var ops []string
+		mut := 0
+		for _, op := range RandLoadOps(r, o.N, 1<<30, nil, []string{"size", "height", "allcount", "traverse vlr 0", "traverse rvl 0"}) {
+			ops = append(ops, op)
+			if strings.HasPrefix(op, "put") || strings.HasPrefix(op, "delete") {
+				mut++
+				if o.AllEvery > 0 && mut%o.AllEvery == 0 {
+					ops = append(ops, "allcount")
+				}
+				if o.HeightEvery > 0 && mut%o.HeightEvery == 0 {
+					ops = append(ops, "height")
+				}
+			}
+		}
+		each(hx.Case{Header: fmt.Sprintf("comp=%s cmp=%s family=randload-dense n=%d", comp, hx.Pick(r, CmpNames), o.N), NoModel: true, Ops: ops})
+	}
+}
+
 // SweepCases: the threshold-sweep cases of one tree kind for this run (shared with c15, which passes its own header
 // words). Quick: every threshold size once (family and comparators rotate with the seed) and one 65536-key table;
 // thorough: every size in every family, and the sizes around 65536 and 70000.
@@ -1566,8 +1740,15 @@ func SweepCases(run *hx.Run, r *hx.Rand, comp string, each func(c hx.Case)) {
 		for k := 0; k < reps; k++ {
 			fs := families(n)
 			family := fs[(int(run.Seed)+i+k)%len(fs)]
-			c := hx.Case{Header: fmt.Sprintf("comp=%s %s family=sweep-%s n=%d", comp, Params(r, CmpNames), family, n),
-				Ops: SweepOps(r, family, n, true)}
+			// every other case spreads the keys so that their differences reach 2^58 (all comparators stay lawful)
+			stride := 1
+			if (i+k+int(run.Seed))%2 == 1 {
+				for stride*2*(3*n+6) <= 1<<58 {
+					stride *= 2
+				}
+			}
+			c := hx.Case{Header: fmt.Sprintf("comp=%s %s%s family=sweep-%s n=%d stride=%d", comp, Params(r, CmpNames), TypeParams(r), family, n, stride),
+				Ops: SweepOpsStride(r, family, n, true, stride)}
 			each(c)
 		}
 	}
@@ -1614,14 +1795,14 @@ func Main(run *hx.Run) {
 			case 4:
 				lo = -u - 3
 			}
-			c := hx.Case{Header: fmt.Sprintf("comp=%s %s dump=1", comp, Params(r, CmpNames)), Ops: GenOpsAt(r, l, lo, u)}
+			c := hx.Case{Header: fmt.Sprintf("comp=%s %s%s dump=1", comp, Params(r, CmpNames), TypeParams(r)), Ops: GenOpsAt(r, l, lo, u)}
 			run.Do(comp, c, Exec)
 		}
 		// Equal between tables holding (almost) the same pairs, built with the same or with different arguments
 		r = run.R.Fork(comp + "/equalpairs")
 		for k, n := 0, run.Scale(120); k < n; k++ {
 			u := r.Range(3, 20)
-			c := hx.Case{Header: fmt.Sprintf("comp=%s %s family=equalpairs dump=1", comp, Params(r, CmpNames)),
+			c := hx.Case{Header: fmt.Sprintf("comp=%s %s%s family=equalpairs dump=1", comp, Params(r, CmpNames), TypeParams(r)),
 				Ops: EqualOps(r, []int{0, -u / 2, -u - 3}[k%3], u)}
 			run.Do(comp, c, Exec)
 		}
@@ -1632,8 +1813,28 @@ func Main(run *hx.Run) {
 				Ops: ExtremeOps(r, length, r.Range(3, 14))}
 			run.Do(comp, c, Exec)
 		}
+		// subtracting comparators on keys that are 2^32 … 2^62 apart (still lawful there: nothing overflows)
+		r = run.R.Fork(comp + "/far")
+		for k, n := 0, run.Scale(60); k < n; k++ {
+			pool, names := FarKeys59, FarCmpNames59
+			if k%3 == 2 {
+				pool, names = FarKeys61, FarCmpNames61
+			}
+			c := hx.Case{Header: fmt.Sprintf("comp=%s %s%s family=far dump=1", comp, Params(r, names), TypeParams(r)),
+				Ops: PoolOps(r, length, r.Range(3, 16), pool, false)}
+			run.Do(comp, c, Exec)
+		}
+		// every size from 0 to 200
+		r = run.R.Fork(comp + "/smallsizes")
+		for n := 0; n <= 200; n++ {
+			family := Families[(n+int(run.Seed))%len(Families)]
+			c := hx.Case{Header: fmt.Sprintf("comp=%s %s%s family=size-%s n=%d", comp, Params(r, CmpNames), TypeParams(r), family, n), Ops: SmallSizeOps(r, family, n)}
+			run.Do(comp, c, Exec)
+		}
 		// size thresholds
 		SweepCases(run, run.R.Fork(comp+"/sweep"), comp, func(c hx.Case) { run.Do(comp, c, Exec) })
+		// irregular shapes: random-order loads and churn on 300 … 5000 keys
+		RandLoadCases(run, run.R.Fork(comp+"/randload"), comp, RandLoadOpts{N: 5000, AllEvery: 5, RB: 5, Other: 1}, func(c hx.Case) { run.Do(comp, c, Exec) })
 	}
 	if run.Thorough() {
 		// every history of length <= 6 over the 8 mutating calls on 3 keys, followed by a fixed battery of queries
